@@ -304,6 +304,13 @@ impl Model for C15Model {
                 out.count("states_where_forks_carry_different_fees");
             }
         }
+        if hist.iter().any(|e| matches!(e, FEv::Upgrade))
+            && by_block.iter().all(|b| b.is_empty())
+            && s.cache.as_ref().map_or(false, |(_, v)| v.iter().any(|x| !x.is_empty()))
+        {
+            // the answer predates the upgrade and cannot be recomputed from the unstable blocks
+            out.count("states_after_upgrade_serving_an_answer_no_longer_derivable");
+        }
         if hist.iter().any(|e| matches!(e, FEv::Upgrade)) && matches!(hist.last(), Some(FEv::Blk { .. })) {
             out.count("states_recomputed_after_upgrade_and_new_block");
         }
@@ -482,6 +489,7 @@ pub fn run(tier: &str) -> i32 {
     rep.floor("states_where_forks_carry_different_fees", 100);
     rep.floor("tip_changes_back_and_forth", 5);
     rep.floor("states_recomputed_after_upgrade_and_new_block", 50);
+    rep.floor("states_after_upgrade_serving_an_answer_no_longer_derivable", 5);
     rep.floor("percentile_vectors_checked", 1000);
     rep.floor("window_family_answers_checked", 1);
     rep.floor("window_cuts_inside_a_block", 1);
